@@ -48,16 +48,16 @@ var relPath = map[string]string{
 }
 
 var fixedFiles = map[string]string{
-	"A.js":        "export const dep = \"A\";\n",
-	"B.js":        "export const dep = \"B\";\n",
-	"cjs.js":      "exports.c = typeof this;\n",
-	"liblocal.js": "export const lib = \"local lib\";\n",
-	"node_modules/lib/main1.js":         "export const lib = \"lib main1\";\n",
-	"node_modules/lib/main2.js":         "export const lib = \"lib main2\";\n",
-	"node_modules/react/jsx-runtime.js": "export const jsx = (t, p) => [\"react-jsx\", t, p];\nexport const jsxs = jsx;\nexport const Fragment = \"react-frag\";\n",
+	"A.js":                                  "export const dep = \"A\";\n",
+	"B.js":                                  "export const dep = \"B\";\n",
+	"cjs.js":                                "exports.c = typeof this;\n",
+	"liblocal.js":                           "export const lib = \"local lib\";\n",
+	"node_modules/lib/main1.js":             "export const lib = \"lib main1\";\n",
+	"node_modules/lib/main2.js":             "export const lib = \"lib main2\";\n",
+	"node_modules/react/jsx-runtime.js":     "export const jsx = (t, p) => [\"react-jsx\", t, p];\nexport const jsxs = jsx;\nexport const Fragment = \"react-frag\";\n",
 	"node_modules/react/jsx-dev-runtime.js": "export const jsxDEV = (t, p) => [\"react-jsxdev\", t, p];\nexport const Fragment = \"react-frag\";\n",
-	"node_modules/foo/jsx-runtime.js":   "export const jsx = (t, p) => [\"foo-jsx\", t, p];\nexport const jsxs = jsx;\nexport const Fragment = \"foo-frag\";\n",
-	"node_modules/foo/jsx-dev-runtime.js": "export const jsxDEV = (t, p) => [\"foo-jsxdev\", t, p];\nexport const Fragment = \"foo-frag\";\n",
+	"node_modules/foo/jsx-runtime.js":       "export const jsx = (t, p) => [\"foo-jsx\", t, p];\nexport const jsxs = jsx;\nexport const Fragment = \"foo-frag\";\n",
+	"node_modules/foo/jsx-dev-runtime.js":   "export const jsxDEV = (t, p) => [\"foo-jsxdev\", t, p];\nexport const Fragment = \"foo-frag\";\n",
 }
 
 // content of a source path at a content version.  Versions "1" and "2" have
